@@ -34,6 +34,9 @@ IMG_LIP_INTERIOR = 10.0  # where the KDE count is >= 0.5 before the call; measur
 IMG_LIP_ANY = 6000.0  # anywhere (count threshold 1e-3 amplifies the count's slope); measured <= 190
 
 PAD_VALUES = ["median", "mean", "min", "max", 0.25]
+# align_translation(upsample_factor=...): default 8; cross_correlation_shift documents an int, C13 claims 1..64;
+# values around powers of two and beyond 1.5*up = 48 on purpose (window-size arithmetic)
+ALIGN_UPS = [1, 2, 3, 4, 7, 8, 16, 31, 32, 33, 40, 48, 64, 100]
 KEY_UPSAMPLE = "xcorr-upsample-identical"  # numpy cross_correlation_shift(upsample_factor > 1), owned by C13
 
 
@@ -79,7 +82,7 @@ def cases(draw, same=None, allow_upsampled_align=True):
         "contrast": draw(st.sampled_from([0.3, 0.5, 0.9]) | st.floats(0.3, 0.9, allow_nan=False)),
     }
     if same:
-        case["align_up"] = draw(st.sampled_from([1, 2, 8])) if allow_upsampled_align else 1
+        case["align_up"] = draw(st.sampled_from(ALIGN_UPS)) if allow_upsampled_align else 1
     return case
 
 
@@ -122,19 +125,33 @@ def history_cases(draw):
             align = {"op": "translation", "up": 1}
         if align is not None and align["op"] == "affine" and R * C * n > 700:
             align = {"op": "translation", "up": 2}
+        # settings changed before the re-preprocess: none, any subset, or (often) the combination "new scan
+        # directions through the setter + a single knot", the only path where the interpolator's own copy of the
+        # scan axes (not the knots) carries the direction
         change = {}
-        which = draw(st.sampled_from(["same", "same", "same", "same", "same", "pad", "knots", "sigma", "angles", "pad_value"]))
-        if which == "pad":
-            change["pad"] = draw(_pads())
-        elif which == "knots":
-            change["knots"] = draw(st.integers(1, 4))
-            draw_k = change["knots"]
-        elif which == "sigma":
-            change["sigma"] = draw(_sigmas())
-        elif which == "angles":
+        mode = draw(st.sampled_from(["same", "same", "same", "angles+1knot", "angles+1knot", "angles+1knot", "subset", "subset"]))
+        if mode == "angles+1knot":
             change["angles"] = [draw(_angles()) for _ in range(n)]
-        elif which == "pad_value":
-            change["pad_value"] = draw(st.sampled_from(PAD_VALUES))
+            if draw_k != 1 or draw(st.booleans()):
+                change["knots"] = 1
+            if draw(st.integers(0, 3)) == 0:
+                change["pad"] = draw(_pads())
+            if draw(st.booleans()):
+                align = None  # preprocess(); set angles; preprocess(number_knots=1) with nothing in between
+        elif mode == "subset":
+            picked = draw(st.lists(st.sampled_from(["pad", "knots", "sigma", "angles", "pad_value"]), min_size=1, max_size=3, unique=True))
+            if "pad" in picked:
+                change["pad"] = draw(_pads())
+            if "knots" in picked:
+                change["knots"] = draw(st.integers(1, 4))
+            if "sigma" in picked:
+                change["sigma"] = draw(_sigmas())
+            if "angles" in picked:
+                change["angles"] = [draw(_angles()) for _ in range(n)]
+            if "pad_value" in picked:
+                change["pad_value"] = draw(st.sampled_from(PAD_VALUES))
+        if "knots" in change:
+            draw_k = change["knots"]
         rounds.append({"align": align, "change": change})
     return {
         "kind": "history",
@@ -356,6 +373,8 @@ def _check_history(ctx, case):
 
     moved_max = 0.0
     same_settings_after_move = False
+    angles_then_one_knot = False
+    multi_change = False
     ops = []
     for ri, rnd in enumerate(case["rounds"]):
         al = rnd.get("align")
@@ -389,6 +408,10 @@ def _check_history(ctx, case):
             cur["angles"] = [float(a) for a in ch["angles"]]
             with ctx.sut(case, "scan_direction_degrees = ..."):
                 dc.scan_direction_degrees = list(cur["angles"])
+        if "angles" in ch and cur["knots"] == 1:
+            angles_then_one_knot = True
+        if len(ch) >= 2:
+            multi_change = True
         if moved >= MOVED_MIN:
             moved_max = max(moved_max, moved)
             if not ch:
@@ -412,9 +435,13 @@ def _check_history(ctx, case):
     classes += sorted(set("history_align:" + o for o in ops))
     if same_settings_after_move:
         classes.append("history_same_settings_after_move")
+    if angles_then_one_knot:
+        classes.append("history_new_angles_single_knot")
+    if multi_change:
+        classes.append("history_several_settings_changed")
     if any(not r.get("align") and not r.get("change") for r in case["rounds"]):
         classes.append("history_preprocess_twice")
-    ctx.record(case, moved_max >= MOVED_MIN, classes)
+    ctx.record(case, moved_max >= MOVED_MIN or angles_then_one_knot, classes)
     metrics["history_moved"] = moved_max if np.isfinite(moved_max) else 0.0
     return metrics
 
